@@ -22,6 +22,13 @@ Four workloads, all executing the real pyxel code on files the harness writes it
                  (load_psf kernel, fixed_pattern_noise map, conversion_with_qe_map map) run after every
                  rewrite: their result must equal the result of the same model on a copy of the present
                  content under a never-used name (and, for the two maps, detector content x placement).
+                 Four of seven histories run while a 'cache_folder' is chosen through pyxel.set_options
+                 (str or Path, existing or not) with 'cache_enabled' left False.
+* ``placed``     every model that fits one or several files onto the detector, each with its own position /
+                 alignment arguments (fixed_pattern_noise, conversion_with_qe_map, persistence with the
+                 densities map alone and with densities + capacities maps): the run must equal the run of the
+                 same model on detector-shaped files holding the oracle placement of every input; inputs
+                 that do not reach the detector must be rejected.
 
 FITS files are written in the layouts a single image comes in: primary HDU, or an IMAGE extension behind
 an empty primary HDU, each with or without a binary-table extension behind it.
@@ -57,7 +64,12 @@ RULE = ("file round trips: arrays 1x1..9x9 (25% one-row, 25% one-column, a few l
         "the current directory / relative to the working_directory option (str or Path, with and without "
         "sub-folder, also alternating between two working directories) / absolute under an unrelated working "
         "directory / with '~'; after every rewrite also the file-using models load_psf, fixed_pattern_noise and "
-        "conversion_with_qe_map against their own run on a fresh copy of the content. distinct = distinct case signatures")
+        "conversion_with_qe_map against their own run on a fresh copy of the content; 4 of 7 histories with the option "
+        "cache_folder set (str / Path, existing / new folder) and cache_enabled False. placed: models with one or two "
+        "placed files (fixed_pattern_noise, conversion_with_qe_map, persistence without and with a capacities map), per "
+        "file an independent shape (smaller / larger / mixed; for persistence mostly at least the detector), "
+        "position (covering, partial, outside; list or tuple) or alignment keyword or default, 1-3 calls, against "
+        "the same model on harness-placed copies. distinct = distinct case signatures")
 ASSUMPTIONS = [
     "the file system records a new modification time for a rewritten file (the harness re-writes until "
     "st_mtime_ns differs from the previous version; same-size rewrites with a forcibly restored mtime are not driven)",
@@ -71,7 +83,12 @@ ASSUMPTIONS = [
     "with several images, where 'the image' is a matter of convention, are not driven",
     "file-using models are deterministic functions of (content of the detector, file content, arguments): the run "
     "on a never-used copy of the file is the reference for the run on the rewritten path; stochastic or heavy "
-    "file-using models (cosmix spectra, persistence maps, wavelength-dependent PSF/QE cubes) are not driven",
+    "file-using models (cosmix spectra, wavelength-dependent PSF/QE cubes) are not driven",
+    "a model that places a file depends on the file only through its placement on the detector: the run on a "
+    "detector-shaped file holding the placement (zero where the input does not reach), at the default position, is "
+    "the reference for the run with position / alignment arguments (persistence maps are driven this way only)",
+    "the option 'cache_enabled' stays False (default): the file cache is a documented opt-in and what it serves "
+    "after a rewrite is not judged; the option 'cache_folder' alone only names a folder",
     "a relative file name designates the file below the 'working_directory' option when one is set and below the "
     "current directory otherwise; an absolute name is not affected by the option (documented behaviour of the option)",
     "a name starting with '~/' designates the file below $HOME (the loaders expand it); it is driven without a "
@@ -86,6 +103,9 @@ REQUIRED_COUNTERS = [
     "stale_reloads_workdir-switch", "stale_reloads_workdir-absolute", "stale_reloads_home-relative",
     "stale_model_reloads_load_psf", "stale_model_reloads_fixed_pattern_noise",
     "stale_model_reloads_conversion_with_qe_map", "stale_model_placements_checked",
+    "stale_reloads_cache-folder-set", "placed_model_runs_checked", "placed_nonoverlap_rejected",
+    "placed_observable_fixed_pattern_noise_map", "placed_observable_conversion_with_qe_map_map",
+    "placed_observable_persistence_trap_densities", "placed_observable_persistence_trap_capacities",
 ]
 TIMEOUT = {"quick": 600, "thorough": 3000}
 
@@ -112,6 +132,7 @@ def plan(tier, seed):
     add("place_rand", 2 if quick else 8, 1500 if quick else 12000)
     add("model", 4 if quick else 8, 300 if quick else 5000)
     add("stale", 2 if quick else 8, 120 if quick else 1500)
+    add("placed", 2 if quick else 4, 150 if quick else 2500)
     return specs
 
 
@@ -867,6 +888,209 @@ def run_model(spec, rec):
             os.remove(path)
 
 
+# ====================================================================== models that place their file(s)
+# Every model of the library that fits one or SEVERAL input files onto the detector, each file with its own
+# 'position' / 'align' arguments.  Reference (metamorphic, harness side): the same model on the same content of the
+# detector with every file replaced by a detector-shaped file that holds the oracle placement of the input, placed
+# at the default position -- "every detector pixel receives the input pixel that the requested offset or alignment
+# keyword places there and zero where the input does not reach", for each input of the model independently.
+PLACED_MODELS = {
+    # name: (inputs [(label, file argument, position argument, align argument, value kind)], smaller input allowed,
+    #        detectors, bucket holding the content of the detector before the run)
+    "fixed_pattern_noise": ([("map", "filename", "position", "align", "gain")], True, ["ccd", "cmos"], "pixel"),
+    "conversion_with_qe_map": ([("map", "filename", "position", "align", "unit")], True, ["ccd", "cmos"], "photon"),
+    "persistence": ([("trap_densities", "trap_densities_filename", "trap_densities_position",
+                      "trap_densities_align", "unit")], False, ["cmos"], "pixel"),
+    "persistence+capacities": ([("trap_densities", "trap_densities_filename", "trap_densities_position",
+                                 "trap_densities_align", "unit"),
+                                ("trap_capacities", "trap_capacities_filename", "trap_capacities_position",
+                                 "trap_capacities_align", "capacity")], False, ["cmos"], "pixel"),
+}
+PLACED_SCHEDULE = ["persistence+capacities", "fixed_pattern_noise", "persistence+capacities", "conversion_with_qe_map",
+                   "persistence", "persistence+capacities"]
+
+
+def placed_values(rng, shape, kind):
+    lo, hi = {"unit": (0.05, 0.95), "gain": (0.5, 1.5), "capacity": (5.0, 3000.0)}[kind]
+    return np.array([[rng.uniform(lo, hi) for _ in range(shape[1])] for _ in range(shape[0])], dtype=np.float64)
+
+
+def run_placed(spec, rec):
+    from pyxel.models.charge_collection import fixed_pattern_noise, persistence
+    from pyxel.models.charge_generation import conversion_with_qe_map
+
+    def execute(mname, dspec, state, files, places, extra, time_step, n_calls):
+        """Run the real model; ``files``: label -> file name, ``places``: label -> {argument: value}."""
+        inputs = PLACED_MODELS[mname][0]
+        det = build.make_detector(dspec)
+        det.set_readout(times=[1.0])
+        det.time_step = time_step
+        kw = dict(extra)
+        for label, a_file, _a_pos, _a_align, _kind in inputs:
+            kw[a_file] = files[label]
+            kw.update(places.get(label) or {})
+        if mname == "fixed_pattern_noise":
+            det.pixel.array = state.copy()
+            fixed_pattern_noise(det, **kw)
+            return [np.array(det.pixel.array)]
+        if mname == "conversion_with_qe_map":
+            det.photon.array = state.copy()
+            conversion_with_qe_map(det, binomial_sampling=False, **kw)
+            return [np.array(det.charge.array)]
+        out = []
+        for _ in range(n_calls):     # the model keeps the trapped charge from call to call
+            det.pixel.array = state.copy()
+            persistence(det, **kw)
+            out.append(np.array(det.pixel.array))
+            out.append(np.array(det.persistence.trapped_charge_array))
+        return out
+
+    def same_results(a, b):
+        return len(a) == len(b) and all(
+            x.shape == y.shape and bool(np.allclose(x, y, rtol=1e-11, atol=0.0)) for x, y in zip(a, b))
+
+    for i in range(spec["n"]):
+        if not rec.wanted(i):
+            continue
+        rng = rec.rng(i)
+        mname = PLACED_SCHEDULE[(i + spec["part"]) % len(PLACED_SCHEDULE)]
+        inputs, allow_smaller, det_kinds, bucket = PLACED_MODELS[mname]
+        model = mname.split("+")[0]
+        det_kind = rng.choice(det_kinds)
+        rows, cols = rng.randint(1, 7), rng.randint(1, 7)
+        out_shape = (rows, cols)
+        dspec = build.default_detector_spec(det_kind, rows, cols)
+        time_step = rng.choice([1.0, 2.0, 0.5, 5.0])
+        n_calls = rng.randint(1, 3)
+        extra = {}
+        if model == "persistence":
+            n_traps = rng.randint(1, 3)
+            extra = {"trap_time_constants": [rng.choice([0.5, 1.0, 3.0, 10.0, 100.0]) for _ in range(n_traps)],
+                     "trap_proportions": [round(rng.uniform(0.1, 1.0), 3) for _ in range(n_traps)]}
+            state = np.array([[rng.uniform(1e3, 1e4) for _ in range(cols)] for _ in range(rows)])
+        else:
+            state = np.array([[rng.uniform(1.0, 100.0) for _ in range(cols)] for _ in range(rows)])
+        as_list = rng.random() < 0.5      # a position comes as a list from YAML, as a tuple from Python
+        case = {"model": mname, "detector": det_kind, "det_shape": [rows, cols], "time_step": time_step,
+                "calls": n_calls, "arguments": {k: v for k, v in extra.items()}, "inputs": {}}
+        files, places, arrays, offsets, overlaps, smaller = {}, {}, {}, {}, {}, {}
+        for label, _a_file, a_pos, a_align, kind in inputs:
+            k = rng.random()
+            if allow_smaller or k < 0.12:
+                in_shape = rand_shape(rng, 1, 10)
+            else:   # at least as large as the detector (the model refuses smaller maps)
+                in_shape = (rows + rng.choice([0, 0, 1, 2, 3, 5]), cols + rng.choice([0, 0, 1, 2, 4, 6]))
+            h, w = in_shape
+            arr = placed_values(rng, in_shape, kind)
+            path, file_label = model_write_input(rec, rng, f"pm_{i}_{label}", arr)
+            how = rng.random()
+            if how < 0.25:
+                align = rng.choice(ALIGNS)
+                places[label] = {a_align: align}
+                offsets[label] = oracle_align_offsets(align, in_shape, out_shape)
+                overlaps[label] = True
+                placement = f"align-{align}"
+            elif how < 0.32:
+                places[label] = {}      # default position
+                offsets[label] = [(0, 0)]
+                overlaps[label] = True
+                placement = "default"
+            else:
+                if h >= rows and w >= cols and rng.random() < 0.6:   # the input covers the whole detector
+                    pos = (rng.randint(rows - h, 0), rng.randint(cols - w, 0))
+                else:
+                    pos = (rand_offset(rng, h, rows), rand_offset(rng, w, cols))
+                places[label] = {a_pos: list(pos) if as_list else pos}
+                offsets[label] = [pos]
+                overlaps[label] = oracle_overlaps(in_shape, out_shape, *pos)
+                placement = list(pos)
+            files[label] = as_arg(path, rng)
+            arrays[label] = arr
+            smaller[label] = smaller_class(in_shape, out_shape) != "not-smaller"
+            case["inputs"][label] = {"shape": list(in_shape), "file": file_label, "placement": placement,
+                                     "file_name_type": type(files[label]).__name__}
+            if arr.size <= 30:
+                case["inputs"][label]["values"] = arr.tolist()
+            rec.observe("placed_size_relations", size_relation(in_shape, out_shape))
+            rec.observe("placed_file_formats", file_label)
+        rec.observe("placed_models", mname)
+        overlap_all = all(overlaps.values())
+        refusable = not allow_smaller and any(smaller.values())
+        mech = f"C20:placed-model:{mname}"
+        sig = ("placed", i, spec["part"], mname, rows, cols, [case["inputs"][l]["shape"] for l in case["inputs"]],
+               [str(case["inputs"][l]["placement"]) for l in case["inputs"]])
+        created = [str(f) for f in files.values()]
+        try:
+            try:
+                got = execute(mname, dspec, state, files, places, extra, time_step, n_calls)
+            except Exception as exc:  # noqa: BLE001
+                if not overlap_all:
+                    rec.count("placed_nonoverlap_rejected")
+                elif refusable:
+                    rec.count("refused")
+                    rec.count("placed_smaller_input_refused")
+                else:
+                    raise
+                del exc
+                rec.case(sig + ("rejected",), True)
+                continue
+            rec.count("placed_model_runs_checked")
+            if not overlap_all:
+                rec.violation(f"{mech}:non-overlapping-input-accepted",
+                              f"{mname}: an input does not reach the detector {out_shape} but the model ran "
+                              f"(placements {case['inputs']})", case, i)
+                rec.case(sig + ("accepted",), True)
+                continue
+            if refusable:
+                rec.count("placed_smaller_input_accepted")
+
+            def reference(choice):
+                """The model on detector-shaped copies of the oracle placements; choice: label -> (oy, ox)."""
+                ref_files = {}
+                for label in arrays:
+                    oy, ox = choice[label]
+                    name = os.path.join(rec.tmp, f"pm_{i}_{label}_placed_{oy}_{ox}.npy")
+                    if not os.path.exists(name):
+                        np.save(name, oracle_place(arrays[label], out_shape, oy, ox))
+                        created.append(name)
+                    ref_files[label] = name
+                return execute(mname, dspec, state, ref_files, {}, extra, time_step, n_calls)
+
+            labels = list(arrays)
+            refs = [reference(dict(zip(labels, combo)))
+                    for combo in itertools.product(*(offsets[label] for label in labels))]
+            if not any(same_results(got, ref) for ref in refs):
+                which = next((k for k, (x, y) in enumerate(zip(got, refs[0])) if not same_results([x], [y])), 0)
+                a, b = got[which], refs[0][which]
+                rec.violation(f"{mech}:differs-from-run-on-placed-copies",
+                              f"{mname}: the run with the files placed by the model differs from the run of the same "
+                              f"model on detector-shaped copies holding the placement of every input (offsets "
+                              f"{offsets}); result {which}: "
+                              f"{first_difference(a.reshape(-1, a.shape[-1]), b.reshape(-1, b.shape[-1])) if a.shape == b.shape else (a.shape, b.shape)}",
+                              case, i)
+            # ---- did this case *observe* the placement of each input?  (another placement of that input alone,
+            # every other input kept, gives another result)
+            for label in labels:
+                oy, ox = offsets[label][0]
+                for other in ((0, 0), (oy + 1, ox), (oy, ox + 1), (oy - 1, ox), (oy, ox - 1)):
+                    if other in offsets[label] or not oracle_overlaps(arrays[label].shape, out_shape, *other):
+                        continue
+                    choice = {l: offsets[l][0] for l in labels}
+                    choice[label] = other
+                    if not same_results(refs[0], reference(choice)):
+                        rec.count(f"placed_observable_{model}_{label}")
+                        break
+        except Exception as exc:  # noqa: BLE001
+            import traceback
+            rec.violation(f"{mech}:unexpected-exception",
+                          f"{type(exc).__name__}: {str(exc)[:300]} :: {traceback.format_exc()[-700:]}", case, i)
+        finally:
+            for name in created:
+                if os.path.exists(name):
+                    os.remove(name)
+        rec.case(sig, True, sample=case if sum(a.size for a in arrays.values()) <= 16 else None)
+
+
 # ====================================================================== staleness
 def stale_versions(rng, fmt, n_versions):
     """Arrays of the successive versions and the relation of each to its predecessor."""
@@ -922,6 +1146,11 @@ NAMINGS = ["absolute", "workdir-relative", "cwd-relative", "workdir-switch",
            "absolute", "workdir-absolute", "workdir-relative", "home-relative"]
 # spellings whose stale content is counted but not raised (none: the '~' finding was fixed by 92de2a2)
 OBSERVE_ONLY_NAMINGS = set()
+
+
+# Option 'cache_folder' of pyxel.set_options during a history (None: not set).  'cache_enabled' stays False (its
+# default): the file cache is a documented opt-in and what it serves is not judged here.
+CACHE_FOLDER_KINDS = [None, None, None, "str-new", "str-existing", "Path-new", "Path-existing"]
 
 
 class process_dirs:
@@ -1040,6 +1269,19 @@ def run_stale(spec, rec):
             # same relative name below the working directory, other content: an absolute name must not end there
             write_bytes_of(fmt, other_arr + 1000, sep=DELIMS[dname], layout=layouts[0])(os.path.join(dir_b, rel))
 
+        # ---- the other options of pyxel.set_options in force during the whole history: a folder for the file
+        # cache may be chosen (str or Path, existing or not) while the cache itself stays disabled (the default)
+        cache_kind = rng.choice(CACHE_FOLDER_KINDS)
+        cache_folder = None
+        if cache_kind:
+            cache_folder = os.path.join(root, "cache")
+            if cache_kind.endswith("existing"):
+                os.makedirs(cache_folder, exist_ok=True)
+            if cache_kind.startswith("Path"):
+                cache_folder = pathlib.Path(cache_folder)
+        case["options"] = {"cache_enabled": False, "cache_folder": cache_kind}
+        rec.observe("stale_cache_folder_kinds", str(cache_kind))
+
         def offsets_of(arr):
             return oracle_align_offsets(align, arr.shape, out_shape) if align else [position]
 
@@ -1124,11 +1366,12 @@ def run_stale(spec, rec):
         chosen = ["load_cropped_and_aligned_image", "model-load_image", "model-load_charge"]
         if i % 2 == 0:
             chosen.append("pipeline-load_image")
-        mech_class = "" if naming == "absolute" else f":path-{naming}"
+        mech_class = ("" if naming == "absolute" else f":path-{naming}") + (":cache-folder-set" if cache_kind else "")
         seen_mtimes = set()
         try:
             with process_dirs(cwd=dir_a if naming == "cwd-relative" else dir_idle,
-                              home=dir_a if naming == "home-relative" else None):
+                              home=dir_a if naming == "home-relative" else None), \
+                    pyxel.set_options(cache_enabled=False, cache_folder=cache_folder):
                 for v, arr in enumerate(arrays):
                     writer = write_bytes_of(fmt, arr, sep=DELIMS[dname], layout=layouts[v])
                     write_version(os.path.join(location(v), rel), writer, how, rec, avoid=seen_mtimes)
@@ -1145,6 +1388,8 @@ def run_stale(spec, rec):
                         if v:
                             rec.count(f"stale_reloads_{naming}")
                             rec.observe("stale_path_namings", naming)
+                            if cache_kind:
+                                rec.count("stale_reloads_cache-folder-set")
                         if matches_any(got, arr, out_shape, offsets_of(arr), factor):
                             continue
                         old = [u for u in range(v) if matches_any(got, arrays[u], out_shape, offsets_of(arrays[u]), factor)]
@@ -1238,7 +1483,7 @@ def run_stale(spec, rec):
             rec.violation("C20:stale:unexpected-exception" + mech_class,
                           f"{type(exc).__name__}: {str(exc)[:300]} :: {traceback.format_exc()[-700:]}", case, i)
         finally:
-            pyxel.set_options(working_directory=None)
+            pyxel.set_options(working_directory=None, cache_enabled=False, cache_folder=None)
         rec.observe("stale_formats", case["format"])
         rec.observe("stale_rewrite_methods", how)
         rec.case(("stale", i, spec["part"], fmt, relations, how, align, position, naming, sub), True,
@@ -1249,7 +1494,7 @@ def run_stale(spec, rec):
 # ====================================================================== entry points
 def run_shard(spec, rec):
     {"roundtrip": run_roundtrip, "place_exh": run_place_exh, "place_rand": run_place_rand,
-     "model": run_model, "stale": run_stale}[spec["kind"]](spec, rec)
+     "model": run_model, "placed": run_placed, "stale": run_stale}[spec["kind"]](spec, rec)
 
 
 EXPECTED_IMAGE_FORMATS = {"npy", "fits", "fits-extension"} | {f"text-{d}" for d in DELIMS}
@@ -1282,6 +1527,12 @@ def finalize(counters, sets, tier):
     miss = set(NAMINGS) - set(sets.get("stale_path_namings", []))
     if miss:
         out.append(f"rewritten files never re-loaded through these spellings of the path: {sorted(miss)}")
+    miss = {str(k) for k in CACHE_FOLDER_KINDS} - set(sets.get("stale_cache_folder_kinds", []))
+    if miss:
+        out.append(f"rewritten files never re-loaded under these settings of the option cache_folder: {sorted(miss)}")
+    miss = set(PLACED_MODELS) - set(sets.get("placed_models", []))
+    if miss:
+        out.append(f"file-placing models never run: {sorted(miss)}")
     want = EXH_BOUND[tier] ** 4
     if counters.get("exh_pairs_done", 0) != want:
         out.append(f"exhaustive placement enumeration incomplete: {counters.get('exh_pairs_done', 0)}/{want} shape pairs")
@@ -1315,7 +1566,10 @@ LEVEL_TEXT = ("Exploration by runtime monitoring: hundreds (quick) to thousands 
               "load_image / load_charge models run directly and through run_mode on real detectors; files are "
               "rewritten between loads of one process, the path being given absolute, relative to the current directory "
               "and relative to the working_directory option, and after every rewrite the file-using models (load_psf, "
-              "fixed_pattern_noise, conversion_with_qe_map) are compared with their run on a fresh copy. FITS images "
+              "fixed_pattern_noise, conversion_with_qe_map) are compared with their run on a fresh copy, part of the histories with a "
+              "cache_folder chosen while the cache stays disabled; models placing one or two maps "
+              "(fixed_pattern_noise, QE map, persistence densities + capacities, each with its own position / "
+              "alignment) are compared with their run on harness-placed copies. FITS images "
               "are written in the primary HDU and in an IMAGE extension. Held = on the executions observed.")
 LEVEL_NOTE = ("Trusted: numpy.save, astropy.io.fits writers and Python's repr()/%.17g float formatting used to write "
               "the inputs; the 25-line placement oracle; the alignment convention copied from the documentation "
